@@ -1,10 +1,15 @@
 #!/bin/bash
 # run every registered check at the given tier; one summary line per check
+# usage: tools/run_all.sh [quick|thorough] [outdir]   (runs from the tree this script lives in)
 TIER=${1:-quick}
-cd /verif
-for p in C01 C02 C03 C04 C05 C06 C07 C08 C09 C10 C11 C12 C13 C14 C15 C16 C17 C18 C19 C20; do
+HERE=$(cd "$(dirname "$0")/.." && pwd)
+OUT=${2:-/tmp}
+cd "$HERE"
+[ "$HERE" != /verif ] && export PDBV_ROOT=$HERE
+mkdir -p "$OUT"
+for p in ${PROPS:-C01 C02 C03 C04 C05 C06 C07 C08 C09 C10 C11 C12 C13 C14 C15 C16 C17 C18 C19 C20}; do
   s=$(date +%s)
-  ./check $p $TIER > /tmp/all_$p.out 2>&1; rc=$?
+  ./check $p $TIER > $OUT/all_$p.out 2>&1; rc=$?
   e=$(date +%s)
-  echo "$p exit=$rc $((e-s))s $(grep -c '^VIOLATION' /tmp/all_$p.out) violations, $(grep -c '^KNOWN-FINDING' /tmp/all_$p.out) known, $(grep -c '^INCONCLUSIVE' /tmp/all_$p.out) inconclusive"
+  echo "$p exit=$rc $((e-s))s $(grep -c '^VIOLATION' $OUT/all_$p.out) violations, $(grep -c '^KNOWN-FINDING' $OUT/all_$p.out) known, $(grep -c '^INCONCLUSIVE' $OUT/all_$p.out) inconclusive"
 done
